@@ -21,7 +21,9 @@ from pathlib import Path
 VERIF = Path(__file__).resolve().parent.parent
 REPO = Path(os.environ.get('DASSH_REPO', '/repo'))
 SPEC = VERIF / 'spec'
-EVID = VERIF / 'evidence'
+# mutation runs (bin/mutest) must not overwrite the evidence of the real tree
+EVID = Path(os.environ['VERIF_EVIDENCE_DIR']) if os.environ.get('VERIF_EVIDENCE_DIR') \
+    else VERIF / 'evidence'
 WORK = VERIF / '.work'
 TLA_CP = ('/opt/veriftools/tla/tla2tools.jar:'
           '/opt/veriftools/tla/CommunityModules-deps.jar')
